@@ -624,6 +624,17 @@ func staticTraits(prog *wgen.Program) string {
 			if vd.Init != nil && wgen.Constish(vd.Init) {
 				found = true // the initialiser is folded to a constant splat / compose whose type is not recorded
 			}
+			x := vd.Init
+			for {
+				p, ok := x.(*wgen.Paren)
+				if !ok {
+					break
+				}
+				x = p.X
+			}
+			if cons, ok := x.(*wgen.Cons); ok && len(cons.Args) == 1 && cons.Args[0].T() != nil && cons.Args[0].T().IsScalar() {
+				found = true // a splat of a run-time scalar: same missing type
+			}
 		}, nil)
 	}
 	if found {
